@@ -65,7 +65,8 @@ def gen_default(rng, wild):
     if k == 0:
         return {'k': 'int', 'v': str(pick(rng, [0, 1, 42, 7, 10 ** 20, 123456789]))}
     if k == 1:
-        return {'k': 'float', 'v': repr(pick(rng, [1.5, 0.0, 2.25, 100.125, 3.0]))}
+        # also values with many fractional digits (all are the shortest repr of themselves)
+        return {'k': 'float', 'v': repr(pick(rng, [1.5, 0.0, 2.25, 100.125, 3.0, 3.14159265358979, 0.123456789012345, 1.00000000000123, 12345.6789012345]))}
     if k == 2:
         return {'k': 'bool', 'v': rng.random() < 0.5}
     if k == 3:
